@@ -15,7 +15,7 @@ namespace PycModel.FullExpr
 open PycModel PycModel.View PycModel.Climb PycModel.ClimbSim PycModel.ClimbConcrete PycModel.OperandId
 open PycModel.ParenExpr (idNode cond_through assign_through expr_through)
 
-variable {ty : String → Bool}
+variable {env : Env}
 
 theorem bnd {α β} (m : P α) (f : α → P β) (s : PState) :
     (m >>= f) s = match m s with | .ok a s' => f a s' | .err e => .err e := rfl
@@ -445,32 +445,32 @@ def StopA (k : String) : Prop := StopC k ∧ inSet (some k) assignmentOps = fals
 def StopX (k : String) : Prop := StopA k ∧ k ≠ "COMMA"
 
 /-- the statement of the theorem for one entry point `nt` of the parser -/
-def EntryOK (ty : String → Bool) (nt : NT) (hres : nt.Res = Val) (e : X) (stopOK : String → Prop) (slack : Nat) : Prop :=
-  ∀ (s : PState) (stop : Tk) (rest : List Tk), stopOK stop.1 → SeesT ty s (e.flat ++ stop :: rest) →
-    ∀ F, e.fuel ≤ F + slack → ∃ s', run F nt s = .ok (hres ▸ e.val s.idx) s' ∧ SeesT ty s' (stop :: rest) ∧
+def EntryOK (env : Env) (nt : NT) (hres : nt.Res = Val) (e : X) (stopOK : String → Prop) (slack : Nat) : Prop :=
+  ∀ (s : PState) (stop : Tk) (rest : List Tk), stopOK stop.1 → SeesT env s (e.flat ++ stop :: rest) →
+    ∀ F, e.fuel ≤ F + slack → ∃ s', run F nt s = .ok (hres ▸ e.val s.idx) s' ∧ SeesT env s' (stop :: rest) ∧
       s'.idx = s.idx + e.ntoks
 
 /-- (the deeper the entry point, the less fuel it needs: `expression` calls `assignmentExpression`
 calls `conditionalExpression` calls `binaryExpression` calls `castExpression` ...) -/
-def BOK (ty : String → Bool) (e : X) : Prop := ∀ m, WFX (3 + m) e → EntryOK ty (.binaryExpression m none) rfl e StopB 3
-def COK (ty : String → Bool) (e : X) : Prop := WFX 2 e → EntryOK ty .conditionalExpression rfl e StopC 2
-def AOK (ty : String → Bool) (e : X) : Prop := WFX 1 e → EntryOK ty .assignmentExpression rfl e StopA 1
-def XOK (ty : String → Bool) (e : X) : Prop := WFX 0 e → EntryOK ty .expression rfl e StopX 0
+def BOK (env : Env) (e : X) : Prop := ∀ m, WFX (3 + m) e → EntryOK env (.binaryExpression m none) rfl e StopB 3
+def COK (env : Env) (e : X) : Prop := WFX 2 e → EntryOK env .conditionalExpression rfl e StopC 2
+def AOK (env : Env) (e : X) : Prop := WFX 1 e → EntryOK env .assignmentExpression rfl e StopA 1
+def XOK (env : Env) (e : X) : Prop := WFX 0 e → EntryOK env .expression rfl e StopX 0
 
 /-- the operand entry points: what follows only has to be no postfix operator (it may be nothing) -/
-def OperandOK (ty : String → Bool) (nt : NT) (hres : nt.Res = Val) (e : X) (slack : Nat) : Prop :=
-  ∀ (s : PState) (rest : List Tk), FollowOp rest → SeesT ty s (e.flat ++ rest) →
-    ∀ F, e.fuel ≤ F + slack → ∃ s', run F nt s = .ok (hres ▸ e.val s.idx) s' ∧ SeesT ty s' rest ∧
+def OperandOK (env : Env) (nt : NT) (hres : nt.Res = Val) (e : X) (slack : Nat) : Prop :=
+  ∀ (s : PState) (rest : List Tk), FollowOp rest → SeesT env s (e.flat ++ rest) →
+    ∀ F, e.fuel ≤ F + slack → ∃ s', run F nt s = .ok (hres ▸ e.val s.idx) s' ∧ SeesT env s' rest ∧
       s'.idx = s.idx + e.ntoks
 
-def CastOK (ty : String → Bool) (e : X) : Prop := WFX 13 e → OperandOK ty .castExpression rfl e 5
-def UnOK (ty : String → Bool) (e : X) : Prop := WFX 13 e → OperandOK ty .unaryExpression rfl e 6
+def CastOK (env : Env) (e : X) : Prop := WFX 13 e → OperandOK env .castExpression rfl e 5
+def UnOK (env : Env) (e : X) : Prop := WFX 13 e → OperandOK env .unaryExpression rfl e 6
 
 /-- the postfix level in continuation form: parsing `e` as a postfix expression is the same as
 entering the suffix loop with the value of `e` after its tokens (so more suffixes may follow) -/
-def PostCPS (ty : String → Bool) (e : X) : Prop :=
-  WFX 14 e → ∀ (s : PState) (rest : List Tk) (F : Nat), SeesT ty s (e.flat ++ rest) → e.fuel ≤ F + 7 →
-    ∃ s1 G, SeesT ty s1 rest ∧ s1.idx = s.idx + e.ntoks ∧ F ≤ G + e.sfx + 2 ∧
+def PostCPS (env : Env) (e : X) : Prop :=
+  WFX 14 e → ∀ (s : PState) (rest : List Tk) (F : Nat), SeesT env s (e.flat ++ rest) → e.fuel ≤ F + 7 →
+    ∃ s1 G, SeesT env s1 rest ∧ s1.idx = s.idx + e.ntoks ∧ F ≤ G + e.sfx + 2 ∧
       run F (.postfixExpression none) s = run G (.postfixLoop (e.val s.idx)) s1
 
 theorem stopX_rparen : StopX "RPAREN" := by
@@ -481,8 +481,8 @@ theorem stopX_rbracket : StopX "RBRACKET" := by
 /-! ## the productions below the binary layer -/
 
 /-- `_try_parse_paren_type_name` on the first tokens of an expression: no type name -/
-theorem tryParen_expr (F : Nat) (s : PState) (toks : List Tk) (hs : SeesT ty s toks) (hh : HeadsOK toks) :
-    ∃ s', run (F + 1) .tryParenTypeName s = .ok none s' ∧ SeesT ty s' toks ∧ s'.idx = s.idx := by
+theorem tryParen_expr (F : Nat) (s : PState) (toks : List Tk) (hs : SeesT env s toks) (hh : HeadsOK toks) :
+    ∃ s', run (F + 1) .tryParenTypeName s = .ok none s' ∧ SeesT env s' toks ∧ s'.idx = s.idx := by
   obtain ⟨t, r, rfl, ht, h2⟩ := hh
   by_cases hl : t.1 = "LPAREN"
   · obtain ⟨t2, r2, rfl, ht2⟩ := h2 hl
@@ -500,10 +500,10 @@ theorem tryParen_expr (F : Nat) (s : PState) (toks : List Tk) (hs : SeesT ty s t
   · exact tryParen_none F s _ hs (by intro k v r h; cases h; exact hl)
 
 /-- `_parse_constant` -/
-theorem pConstant_ok (s : PState) (k v t : String) (rest : List Tk) (hs : SeesT ty s ((k, v) :: rest))
+theorem pConstant_ok (s : PState) (k v t : String) (rest : List Tk) (hs : SeesT env s ((k, v) :: rest))
     (hc : constType k v = some t) :
     ∃ s', pConstant s = .ok (mk .Constant (tc s.idx) [.str t, .str v]) s' ∧
-      SeesT ty s' rest ∧ s'.idx = s.idx + 1 := by
+      SeesT env s' rest ∧ s'.idx = s.idx + 1 := by
   obtain ⟨s2, h2, hs2, _, hi2, _⟩ := advance_spec s k v rest hs
   refine ⟨s2, ?_, hs2, hi2⟩
   unfold constType at hc
@@ -532,10 +532,10 @@ theorem pConstant_ok (s : PState) (k v t : String) (rest : List Tk) (hs : SeesT 
         · simp only [c6, Bool.false_eq_true, ↓reduceIte] at hc; cases hc
 
 /-- a constant -/
-theorem primary_const (F : Nat) (s : PState) (k v t : String) (rest : List Tk) (hs : SeesT ty s ((k, v) :: rest))
+theorem primary_const (F : Nat) (s : PState) (k v t : String) (rest : List Tk) (hs : SeesT env s ((k, v) :: rest))
     (hc : constType k v = some t) :
     ∃ s', run (F + 1) .primaryExpression s = .ok (mk .Constant (tc s.idx) [.str t, .str v]) s' ∧
-      SeesT ty s' rest ∧ s'.idx = s.idx + 1 := by
+      SeesT env s' rest ∧ s'.idx = s.idx + 1 := by
   have hk := constKinds_facts k (constType_kind hc)
   obtain ⟨s1, h1, hs1, hi1, _⟩ := peekType_spec s _ hs
   obtain ⟨s2, h2, hs2, hi2⟩ := pConstant_ok s1 k v t rest hs1 hc
@@ -547,11 +547,11 @@ theorem primary_const (F : Nat) (s : PState) (k v t : String) (rest : List Tk) (
   simp [pPrimaryExpression, bnd, h1, hk.2.1, hor, h2]
 
 /-- the start of `_parse_postfix_expression`: no compound literal; a primary expression, then the loop -/
-theorem post_start (F : Nat) (s : PState) (toks rest : List Tk) (v : Val) (i1 : Nat) (hs : SeesT ty s toks)
+theorem post_start (F : Nat) (s : PState) (toks rest : List Tk) (v : Val) (i1 : Nat) (hs : SeesT env s toks)
     (hh : HeadsOK toks)
-    (hp : ∀ s0, SeesT ty s0 toks → s0.idx = s.idx →
-      ∃ s1, run (F + 1) .primaryExpression s0 = .ok v s1 ∧ SeesT ty s1 rest ∧ s1.idx = i1) :
-    ∃ s1, SeesT ty s1 rest ∧ s1.idx = i1 ∧
+    (hp : ∀ s0, SeesT env s0 toks → s0.idx = s.idx →
+      ∃ s1, run (F + 1) .primaryExpression s0 = .ok v s1 ∧ SeesT env s1 rest ∧ s1.idx = i1) :
+    ∃ s1, SeesT env s1 rest ∧ s1.idx = i1 ∧
       run (F + 2) (.postfixExpression none) s = run (F + 1) (.postfixLoop v) s1 := by
   obtain ⟨s1, h1, hs1, hi1⟩ := tryParen_expr F s toks hs hh
   obtain ⟨s2, h2, hs2, hi2⟩ := hp s1 hs1 hi1
@@ -564,8 +564,8 @@ theorem mem_ne {k : String} {l : List String} {x : String} (hk : k ∈ l) (hx : 
 
 /-- one turn of the suffix loop: `++` / `--` -/
 theorem loop_incdec (G : Nat) (s : PState) (ev : Val) (k v : String) (rest : List Tk)
-    (hs : SeesT ty s ((k, v) :: rest)) (hk : k ∈ incDec) (hn : ev.isNode = true) :
-    ∃ s', SeesT ty s' rest ∧ s'.idx = s.idx + 1 ∧
+    (hs : SeesT env s ((k, v) :: rest)) (hk : k ∈ incDec) (hn : ev.isNode = true) :
+    ∃ s', SeesT env s' rest ∧ s'.idx = s.idx + 1 ∧
       run (G + 1) (.postfixLoop ev) s =
         run G (.postfixLoop (mk .UnaryOp (X.coordOfVal ev) [.str ("p" ++ v), ev])) s' := by
   obtain ⟨s1, h1, hs1, hi1⟩ := accept_other s _ "LBRACKET" hs
@@ -588,8 +588,8 @@ theorem loop_incdec (G : Nat) (s : PState) (ev : Val) (k v : String) (rest : Lis
 
 /-- one turn of the suffix loop: `. name` / `-> name` -/
 theorem loop_member (G : Nat) (s : PState) (ev : Val) (k v f : String) (rest : List Tk)
-    (hs : SeesT ty s ((k, v) :: ("ID", f) :: rest)) (hk : k ∈ memberOps) (hn : ev.isNode = true) :
-    ∃ s', SeesT ty s' rest ∧ s'.idx = s.idx + 2 ∧
+    (hs : SeesT env s ((k, v) :: ("ID", f) :: rest)) (hk : k ∈ memberOps) (hn : ev.isNode = true) :
+    ∃ s', SeesT env s' rest ∧ s'.idx = s.idx + 2 ∧
       run (G + 1) (.postfixLoop ev) s =
         run G (.postfixLoop (mk .StructRef (X.coordOfVal ev) [ev, .str v, idNode (s.idx + 1) f])) s' := by
   obtain ⟨s1, h1, hs1, hi1⟩ := accept_other s _ "LBRACKET" hs
@@ -610,11 +610,11 @@ theorem loop_member (G : Nat) (s : PState) (ev : Val) (k v f : String) (rest : L
 
 /-- one turn of the suffix loop: `[ expression ]` -/
 theorem loop_index (G : Nat) (s : PState) (ev iv : Val) (inner rest : List Tk) (i1 : Nat)
-    (hs : SeesT ty s (("LBRACKET", "[") :: (inner ++ ("RBRACKET", "]") :: rest)))
-    (he : ∀ s0, SeesT ty s0 (inner ++ ("RBRACKET", "]") :: rest) → s0.idx = s.idx + 1 →
-      ∃ s1, run G .expression s0 = .ok iv s1 ∧ SeesT ty s1 (("RBRACKET", "]") :: rest) ∧ s1.idx = i1)
+    (hs : SeesT env s (("LBRACKET", "[") :: (inner ++ ("RBRACKET", "]") :: rest)))
+    (he : ∀ s0, SeesT env s0 (inner ++ ("RBRACKET", "]") :: rest) → s0.idx = s.idx + 1 →
+      ∃ s1, run G .expression s0 = .ok iv s1 ∧ SeesT env s1 (("RBRACKET", "]") :: rest) ∧ s1.idx = i1)
     (hn : ev.isNode = true) :
-    ∃ s', SeesT ty s' rest ∧ s'.idx = i1 + 1 ∧
+    ∃ s', SeesT env s' rest ∧ s'.idx = i1 + 1 ∧
       run (G + 1) (.postfixLoop ev) s = run G (.postfixLoop (mk .ArrayRef (X.coordOfVal ev) [ev, iv])) s' := by
   obtain ⟨s1, h1, hs1, hi1, _⟩ := accept_same s "LBRACKET" "[" _ hs
   obtain ⟨s2, h2, hs2, hi2⟩ := he s1 hs1 hi1
@@ -626,8 +626,8 @@ theorem loop_index (G : Nat) (s : PState) (ev iv : Val) (inner rest : List Tk) (
 
 /-- one turn of the suffix loop: `( )` -/
 theorem loop_call0 (G : Nat) (s : PState) (ev : Val) (rest : List Tk)
-    (hs : SeesT ty s (("LPAREN", "(") :: ("RPAREN", ")") :: rest)) (hn : ev.isNode = true) :
-    ∃ s', SeesT ty s' rest ∧ s'.idx = s.idx + 2 ∧
+    (hs : SeesT env s (("LPAREN", "(") :: ("RPAREN", ")") :: rest)) (hn : ev.isNode = true) :
+    ∃ s', SeesT env s' rest ∧ s'.idx = s.idx + 2 ∧
       run (G + 1) (.postfixLoop ev) s = run G (.postfixLoop (mk .FuncCall (X.coordOfVal ev) [ev, .none])) s' := by
   obtain ⟨s1, h1, hs1, hi1⟩ := accept_other s _ "LBRACKET" hs (by intro k' v' r h; cases h; decide)
   obtain ⟨s2, h2, hs2, hi2, _⟩ := accept_same s1 "LPAREN" "(" _ hs1
@@ -640,13 +640,13 @@ theorem loop_call0 (G : Nat) (s : PState) (ev : Val) (rest : List Tk)
 
 /-- one turn of the suffix loop: `( arguments )` -/
 theorem loop_call (G : Nat) (s : PState) (ev first : Val) (l : List Val) (inner rest : List Tk) (i1 : Nat)
-    (hs : SeesT ty s (("LPAREN", "(") :: (inner ++ ("RPAREN", ")") :: rest)))
+    (hs : SeesT env s (("LPAREN", "(") :: (inner ++ ("RPAREN", ")") :: rest)))
     (hin : ∃ t r, inner = t :: r ∧ t.1 ≠ "RPAREN")
-    (hargs : ∀ s0, SeesT ty s0 (inner ++ ("RPAREN", ")") :: rest) → s0.idx = s.idx + 1 →
+    (hargs : ∀ s0, SeesT env s0 (inner ++ ("RPAREN", ")") :: rest) → s0.idx = s.idx + 1 →
       ∃ s1 s2, run G .assignmentExpression s0 = .ok first s1 ∧ run G (.argListLoop [first]) s1 = .ok l s2 ∧
-        SeesT ty s2 (("RPAREN", ")") :: rest) ∧ s2.idx = i1)
+        SeesT env s2 (("RPAREN", ")") :: rest) ∧ s2.idx = i1)
     (hf : first.isNode = true) (hn : ev.isNode = true) :
-    ∃ s', SeesT ty s' rest ∧ s'.idx = i1 + 1 ∧
+    ∃ s', SeesT env s' rest ∧ s'.idx = i1 + 1 ∧
       run (G + 1) (.postfixLoop ev) s =
         run G (.postfixLoop (mk .FuncCall (X.coordOfVal ev) [ev, mk .ExprList (X.coordOfVal first) [.list l]])) s' := by
   obtain ⟨t, r, rfl, htr⟩ := hin
@@ -664,7 +664,7 @@ theorem loop_call (G : Nat) (s : PState) (ev first : Val) (l : List Val) (inner 
 
 /-! ## the postfix level -/
 
-theorem cps_id (x : String) : PostCPS ty (.id x) := by
+theorem cps_id (x : String) : PostCPS env (.id x) := by
   intro hwf s rest F hs hF
   obtain ⟨F', rfl⟩ : ∃ F', F = F' + 2 := ⟨F - 2, by simp only [X.fuel] at hF; omega⟩
   obtain ⟨s1, hs1, hi1, heq⟩ := post_start F' s _ rest (idNode s.idx x) (s.idx + 1) hs ((flat_heads hwf).append rest)
@@ -673,7 +673,7 @@ theorem cps_id (x : String) : PostCPS ty (.id x) := by
       exact ⟨s1, by rw [h1, hi0]; rfl, hs1, by omega⟩)
   exact ⟨s1, F' + 1, hs1, by simpa [X.ntoks] using hi1, by simp [X.sfx], by simpa [X.val] using heq⟩
 
-theorem cps_const (k v t : String) : PostCPS ty (.const k v t) := by
+theorem cps_const (k v t : String) : PostCPS env (.const k v t) := by
   intro hwf s rest F hs hF
   obtain ⟨F', rfl⟩ : ∃ F', F = F' + 2 := ⟨F - 2, by simp only [X.fuel] at hF; omega⟩
   have hc : constType k v = some t := by cases hwf with | const _ _ _ _ h => exact h
@@ -684,7 +684,7 @@ theorem cps_const (k v t : String) : PostCPS ty (.const k v t) := by
       exact ⟨s1, by rw [h1, hi0]; rfl, hs1, by omega⟩)
   exact ⟨s1, F' + 1, hs1, by simpa [X.ntoks] using hi1, by simp [X.sfx], heq⟩
 
-theorem cps_paren (e : X) (hx : XOK ty e) : PostCPS ty (.paren e) := by
+theorem cps_paren (e : X) (hx : XOK env e) : PostCPS env (.paren e) := by
   intro hwf s rest F hs hF
   obtain ⟨F', rfl⟩ : ∃ F', F = F' + 2 := ⟨F - 2, by simp only [X.fuel] at hF; have := fuel_ge e; omega⟩
   simp only [X.fuel] at hF
@@ -692,7 +692,7 @@ theorem cps_paren (e : X) (hx : XOK ty e) : PostCPS ty (.paren e) := by
   obtain ⟨s1, hs1, hi1, heq⟩ := post_start F' s _ rest (e.val (s.idx + 1)) (s.idx + 1 + e.ntoks + 1) hs
     ((flat_heads hwf).append rest)
     (fun s0 h0 hi0 => by
-      have h0' : SeesT ty s0 (("LPAREN", "(") :: (e.flat ++ ("RPAREN", ")") :: rest)) := by simpa [X.flat] using h0
+      have h0' : SeesT env s0 (("LPAREN", "(") :: (e.flat ++ ("RPAREN", ")") :: rest)) := by simpa [X.flat] using h0
       obtain ⟨s1, h1, hs1, hi1⟩ := ParenExpr.primary_paren F' s0 (e.val (s.idx + 1)) e.flat rest (s.idx + 1 + e.ntoks) h0'
         (fun sa ha hia => by
           obtain ⟨sb, hb, hsb, hib⟩ := hx hw sa ("RPAREN", ")") rest stopX_rparen ha F' (by omega)
@@ -700,50 +700,50 @@ theorem cps_paren (e : X) (hx : XOK ty e) : PostCPS ty (.paren e) := by
       exact ⟨s1, h1, hs1, hi1⟩)
   exact ⟨s1, F' + 1, hs1, by simp only [X.ntoks]; omega, by simp [X.sfx], by simpa [X.val] using heq⟩
 
-theorem cps_post (k v : String) (e : X) (ih : PostCPS ty e) : PostCPS ty (.post k v e) := by
+theorem cps_post (k v : String) (e : X) (ih : PostCPS env e) : PostCPS env (.post k v e) := by
   intro hwf s rest F hs hF
   cases hwf with
   | post _ _ _ _ _ hk hw =>
     simp only [X.fuel] at hF
     have hsf := sfx_fuel e
-    have hs0 : SeesT ty s (e.flat ++ (k, v) :: rest) := by simpa [X.flat] using hs
+    have hs0 : SeesT env s (e.flat ++ (k, v) :: rest) := by simpa [X.flat] using hs
     obtain ⟨s1, G, hs1, hi1, hG, heq⟩ := ih hw s ((k, v) :: rest) F hs0 (by omega)
     obtain ⟨G', rfl⟩ : ∃ G', G = G' + 1 := ⟨G - 1, by omega⟩
     obtain ⟨s2, hs2, hi2, hstep⟩ := loop_incdec G' s1 (e.val s.idx) k v rest hs1 hk (val_isNode _ _)
     exact ⟨s2, G', hs2, by simp only [X.ntoks]; omega, by simp only [X.sfx]; omega, by rw [heq, hstep]; rfl⟩
 
-theorem cps_member (k v : String) (e : X) (f : String) (ih : PostCPS ty e) : PostCPS ty (.member k v e f) := by
+theorem cps_member (k v : String) (e : X) (f : String) (ih : PostCPS env e) : PostCPS env (.member k v e f) := by
   intro hwf s rest F hs hF
   cases hwf with
   | member _ _ _ _ _ _ hk hw =>
     simp only [X.fuel] at hF
     have hsf := sfx_fuel e
-    have hs0 : SeesT ty s (e.flat ++ (k, v) :: ("ID", f) :: rest) := by simpa [X.flat] using hs
+    have hs0 : SeesT env s (e.flat ++ (k, v) :: ("ID", f) :: rest) := by simpa [X.flat] using hs
     obtain ⟨s1, G, hs1, hi1, hG, heq⟩ := ih hw s _ F hs0 (by omega)
     obtain ⟨G', rfl⟩ : ∃ G', G = G' + 1 := ⟨G - 1, by omega⟩
     obtain ⟨s2, hs2, hi2, hstep⟩ := loop_member G' s1 (e.val s.idx) k v f rest hs1 hk (val_isNode _ _)
     refine ⟨s2, G', hs2, by simp only [X.ntoks]; omega, by simp only [X.sfx]; omega, ?_⟩
     rw [heq, hstep, hi1]; rfl
 
-theorem cps_call0 (e : X) (ih : PostCPS ty e) : PostCPS ty (.call0 e) := by
+theorem cps_call0 (e : X) (ih : PostCPS env e) : PostCPS env (.call0 e) := by
   intro hwf s rest F hs hF
   cases hwf with
   | call0 _ _ _ hw =>
     simp only [X.fuel] at hF
     have hsf := sfx_fuel e
-    have hs0 : SeesT ty s (e.flat ++ ("LPAREN", "(") :: ("RPAREN", ")") :: rest) := by simpa [X.flat] using hs
+    have hs0 : SeesT env s (e.flat ++ ("LPAREN", "(") :: ("RPAREN", ")") :: rest) := by simpa [X.flat] using hs
     obtain ⟨s1, G, hs1, hi1, hG, heq⟩ := ih hw s _ F hs0 (by omega)
     obtain ⟨G', rfl⟩ : ∃ G', G = G' + 1 := ⟨G - 1, by omega⟩
     obtain ⟨s2, hs2, hi2, hstep⟩ := loop_call0 G' s1 (e.val s.idx) rest hs1 (val_isNode _ _)
     exact ⟨s2, G', hs2, by simp only [X.ntoks]; omega, by simp only [X.sfx]; omega, by rw [heq, hstep]; rfl⟩
 
-theorem cps_index (e i : X) (ih : PostCPS ty e) (hx : XOK ty i) : PostCPS ty (.index e i) := by
+theorem cps_index (e i : X) (ih : PostCPS env e) (hx : XOK env i) : PostCPS env (.index e i) := by
   intro hwf s rest F hs hF
   cases hwf with
   | index _ _ _ _ hw hwi =>
     simp only [X.fuel] at hF
     have hsf := sfx_fuel e
-    have hs0 : SeesT ty s (e.flat ++ ("LBRACKET", "[") :: (i.flat ++ ("RBRACKET", "]") :: rest)) := by
+    have hs0 : SeesT env s (e.flat ++ ("LBRACKET", "[") :: (i.flat ++ ("RBRACKET", "]") :: rest)) := by
       simpa [X.flat] using hs
     obtain ⟨s1, G, hs1, hi1, hG, heq⟩ := ih hw s _ F hs0 (by omega)
     obtain ⟨G', rfl⟩ : ∃ G', G = G' + 1 := ⟨G - 1, by omega⟩
@@ -756,15 +756,15 @@ theorem cps_index (e i : X) (ih : PostCPS ty e) (hx : XOK ty i) : PostCPS ty (.i
     exact ⟨s2, G', hs2, by simp only [X.ntoks]; omega, by simp only [X.sfx]; omega, by rw [heq, hstep]; rfl⟩
 
 /-- the postfix entry point -/
-theorem un_of_cps (e : X) (hw14 : WFX 14 e) (h : PostCPS ty e) : OperandOK ty .unaryExpression rfl e 6 := by
+theorem un_of_cps (e : X) (hw14 : WFX 14 e) (h : PostCPS env e) : OperandOK env .unaryExpression rfl e 6 := by
   intro s rest hfo hs F hF
   have hsf := sfx_fuel e
   obtain ⟨F', rfl⟩ : ∃ F', F = F' + 1 := ⟨F - 1, by omega⟩
   obtain ⟨t, r, hfl, ht⟩ := flat_head14 hw14
   have pf := primHeads_facts t.1 ht
-  have hs0 : SeesT ty s (t :: (r ++ rest)) := by simpa [hfl] using hs
+  have hs0 : SeesT env s (t :: (r ++ rest)) := by simpa [hfl] using hs
   obtain ⟨s1, h1, hs1, hi1, _⟩ := peekType_spec s _ hs0
-  have hs1' : SeesT ty s1 (e.flat ++ rest) := by simpa [hfl] using hs1
+  have hs1' : SeesT env s1 (e.flat ++ rest) := by simpa [hfl] using hs1
   obtain ⟨s2, G, hs2, hi2, hG, heq⟩ := h hw14 s1 rest F' hs1' (by omega)
   obtain ⟨G', rfl⟩ : ∃ G', G = G' + 1 := ⟨G - 1, by omega⟩
   obtain ⟨s3, h3, hs3, hi3⟩ := postfixLoop_stop G' s2 (e.val s1.idx) rest hs2 hfo
@@ -778,13 +778,13 @@ theorem prefix_split : ∀ k ∈ prefixOps, inSet (some k) ["PLUSPLUS", "MINUSMI
       inSet (some k) ["AND", "TIMES", "PLUS", "MINUS", "NOT", "LNOT"] = true) := by decide
 
 /-- a prefix operator -/
-theorem un_pre (k v : String) (e : X) (hc : CastOK ty e) (hu : UnOK ty e) : UnOK ty (.pre k v e) := by
+theorem un_pre (k v : String) (e : X) (hc : CastOK env e) (hu : UnOK env e) : UnOK env (.pre k v e) := by
   intro hwf s rest hfo hs F hF
   cases hwf with
   | pre _ _ _ _ _ hk hw =>
     simp only [X.fuel] at hF
     obtain ⟨F', rfl⟩ : ∃ F', F = F' + 1 := ⟨F - 1, by have := fuel_ge e; omega⟩
-    have hs0 : SeesT ty s ((k, v) :: (e.flat ++ rest)) := by simpa [X.flat] using hs
+    have hs0 : SeesT env s ((k, v) :: (e.flat ++ rest)) := by simpa [X.flat] using hs
     obtain ⟨s1, h1, hs1, hi1, _⟩ := peekType_spec s _ hs0
     obtain ⟨s2, h2, hs2, _, hi2, _⟩ := advance_spec s1 k v _ hs1
     have e2 : s2.idx = s.idx + 1 := by omega
@@ -803,13 +803,13 @@ theorem un_pre (k v : String) (e : X) (hc : CastOK ty e) (hu : UnOK ty e) : UnOK
       simp [pUnaryExpression, bnd, h1, hn1, hin, h2, h3, hco, pur, X.val]
 
 /-- `sizeof unary-expression` -/
-theorem un_szof (e : X) (hu : UnOK ty e) : UnOK ty (.szof e) := by
+theorem un_szof (e : X) (hu : UnOK env e) : UnOK env (.szof e) := by
   intro hwf s rest hfo hs F hF
   cases hwf with
   | szof _ _ _ hw =>
     simp only [X.fuel] at hF
     obtain ⟨F', rfl⟩ : ∃ F', F = F' + 2 := ⟨F - 2, by have := fuel_ge e; omega⟩
-    have hs0 : SeesT ty s (("SIZEOF", "sizeof") :: (e.flat ++ rest)) := by simpa [X.flat] using hs
+    have hs0 : SeesT env s (("SIZEOF", "sizeof") :: (e.flat ++ rest)) := by simpa [X.flat] using hs
     obtain ⟨s1, h1, hs1, hi1, _⟩ := peekType_spec s _ hs0
     obtain ⟨s2, h2, hs2, _, hi2, _⟩ := advance_spec s1 "SIZEOF" "sizeof" _ hs1
     obtain ⟨s3, h3, hs3, hi3⟩ := tryParen_expr F' s2 _ hs2 ((flat_heads hw).append rest)
@@ -821,7 +821,7 @@ theorem un_szof (e : X) (hu : UnOK ty e) : UnOK ty (.szof e) := by
     simp [pUnaryExpression, bnd, h1, inSet, h2, h3, h4, tokCoord, pur, X.val, tc, hi1]
 
 /-- `_parse_cast_expression` on an expression without a cast -/
-theorem cast_of_un (e : X) (hu : UnOK ty e) : CastOK ty e := by
+theorem cast_of_un (e : X) (hu : UnOK env e) : CastOK env e := by
   intro hwf s rest hfo hs F hF
   obtain ⟨F', rfl⟩ : ∃ F', F = F' + 2 := ⟨F - 2, by have := fuel_ge e; omega⟩
   obtain ⟨s1, h1, hs1, hi1⟩ := tryParen_expr F' s _ hs ((flat_heads hwf).append rest)
@@ -854,39 +854,39 @@ theorem lift_leaf {e : X} {m : Nat} (hb : e.isBin = false) (h : WFX (3 + m) e) :
   | comma => omega
 
 /-- operands of the binary layer: any unary expression for which the operand entry point is correct -/
-def Op (ty : String → Bool) (n : Nat) (a : Val) (ta : List Tk) (fa : Nat) : Prop :=
-  ∃ e : X, WFX 13 e ∧ ta = e.flat ∧ a = e.val n ∧ fa = e.fuel - 5 ∧ CastOK ty e
+def Op (env : Env) (n : Nat) (a : Val) (ta : List Tk) (fa : Nat) : Prop :=
+  ∃ e : X, WFX 13 e ∧ ta = e.flat ∧ a = e.val n ∧ fa = e.fuel - 5 ∧ CastOK env e
 
-theorem operand_spec : OperandSpec ty (Op ty) FollowOp := by
+theorem operand_spec : OperandSpec env (Op env) FollowOp := by
   intro fuel s a ta fa rest hfuel hop hfo hs
   obtain ⟨e, hwf, rfl, rfl, rfl, hok⟩ := hop
   obtain ⟨s', hr, hs', hi⟩ := hok hwf s rest hfo hs fuel (by omega)
   exact ⟨s', hr, hs', by rw [flat_length]; exact hi⟩
 
 /-- the operands of the binary-operator tree rooted at `e` satisfy the theorem -/
-def LeafOK (ty : String → Bool) : X → Prop
-  | .bin _ _ l r => LeafOK ty l ∧ LeafOK ty r
-  | e => CastOK ty e
+def LeafOK (env : Env) : X → Prop
+  | .bin _ _ l r => LeafOK env l ∧ LeafOK env r
+  | e => CastOK env e
 
-theorem leafOK_leaf (e : X) (hb : e.isBin = false) : LeafOK ty e = CastOK ty e := by
+theorem leafOK_leaf (e : X) (hb : e.isBin = false) : LeafOK env e = CastOK env e := by
   cases e <;> first | rfl | simp [X.isBin] at hb
 
 theorem denotes_tks (f0 : Nat) : ∀ (n : Nat) (l : List Tk),
-    Denotes (Op ty) FollowOp f0 n (l.map fun t => PT.tk t.1 t.2) l
+    Denotes (Op env) FollowOp f0 n (l.map fun t => PT.tk t.1 t.2) l
   | n, [] => .nil n
   | n, (k, v) :: l => .tk n k v _ _ (denotes_tks f0 (n + 1) l)
 
 theorem denotes_tks_inv (f0 : Nat) : ∀ (n : Nat) (l toks : List Tk),
-    Denotes (Op ty) FollowOp f0 n (l.map fun t => PT.tk t.1 t.2) toks → toks = l
+    Denotes (Op env) FollowOp f0 n (l.map fun t => PT.tk t.1 t.2) toks → toks = l
   | n, [], toks, h => by cases h; rfl
   | n, (k, v) :: l, toks, h => by
     cases h with
     | tk _ _ _ _ toks' h' => rw [denotes_tks_inv f0 (n + 1) l toks' h']
 
 theorem denotes_leaf (f0 : Nat) (e : X) (m n : Nat) (ts : List PT) (toks : List Tk) (hb : e.isBin = false)
-    (hwf : WFX (3 + m) e) (hok : LeafOK ty e) (hf0 : e.opFuel ≤ f0) (hf : FollowOp toks)
-    (hd : Denotes (Op ty) FollowOp f0 (n + e.ntoks) ts toks) :
-    Denotes (Op ty) FollowOp f0 n ((e.toBT n).toks ++ ts) (e.flat ++ toks) := by
+    (hwf : WFX (3 + m) e) (hok : LeafOK env e) (hf0 : e.opFuel ≤ f0) (hf : FollowOp toks)
+    (hd : Denotes (Op env) FollowOp f0 (n + e.ntoks) ts toks) :
+    Denotes (Op env) FollowOp f0 n ((e.toBT n).toks ++ ts) (e.flat ++ toks) := by
   rw [toBT_leaf e n hb]
   rw [leafOK_leaf e hb] at hok
   rw [opFuel_leaf e hb] at hf0
@@ -895,8 +895,8 @@ theorem denotes_leaf (f0 : Nat) (e : X) (m n : Nat) (ts : List PT) (toks : List 
     (by rw [flat_length]; exact hd)
 
 theorem denotes_tree (f0 : Nat) (e : X) : ∀ (m n : Nat) (ts : List PT) (toks : List Tk),
-    WFX (3 + m) e → LeafOK ty e → e.opFuel ≤ f0 → FollowOp toks → Denotes (Op ty) FollowOp f0 (n + e.ntoks) ts toks →
-    Denotes (Op ty) FollowOp f0 n ((e.toBT n).toks ++ ts) (e.flat ++ toks) := by
+    WFX (3 + m) e → LeafOK env e → e.opFuel ≤ f0 → FollowOp toks → Denotes (Op env) FollowOp f0 (n + e.ntoks) ts toks →
+    Denotes (Op env) FollowOp f0 n ((e.toBT n).toks ++ ts) (e.flat ++ toks) := by
   induction e with
   | bin k v l r ihl ihr =>
     intro m n ts toks hwf hok hf0 hf hd
@@ -907,7 +907,7 @@ theorem denotes_tree (f0 : Nat) (e : X) : ∀ (m n : Nat) (ts : List PT) (toks :
       have hfr : r.opFuel ≤ f0 := Nat.le_trans (Nat.le_max_right _ _) hf0
       have h1 := ihr (p + 1) (n + l.ntoks + 1) ts toks (by simpa [Nat.add_assoc] using hr) hok.2 hfr hf
         (by simpa [X.ntoks, Nat.add_assoc, Nat.add_comm, Nat.add_left_comm] using hd)
-      have h2 : Denotes (Op ty) FollowOp f0 (n + l.ntoks) (PT.tk k v :: ((r.toBT (n + l.ntoks + 1)).toks ++ ts))
+      have h2 : Denotes (Op env) FollowOp f0 (n + l.ntoks) (PT.tk k v :: ((r.toBT (n + l.ntoks + 1)).toks ++ ts))
           ((k, v) :: (r.flat ++ toks)) := .tk _ k v _ _ h1
       have hfo : FollowOp ((k, v) :: (r.flat ++ toks)) := by
         intro k' v' r' heq
@@ -919,7 +919,7 @@ theorem denotes_tree (f0 : Nat) (e : X) : ∀ (m n : Nat) (ts : List PT) (toks :
   | _ => intro m n ts toks hwf hok hf0 hf hd; exact denotes_leaf f0 _ m n ts toks rfl hwf hok hf0 hf hd
 
 /-- the binary layer, given the theorem for the operands -/
-theorem bok_of_leaves (e : X) (hl : LeafOK ty e) : BOK ty e := by
+theorem bok_of_leaves (e : X) (hl : LeafOK env e) : BOK env e := by
   intro m hwf s stop rest hstop hs F hF
   let k : List PT := (stop :: rest).map fun t => PT.tk t.1 t.2
   have hk : StopAt binPrec m k := by
@@ -942,7 +942,7 @@ theorem bok_of_leaves (e : X) (hl : LeafOK ty e) : BOK ty e := by
   let N := s.idx + (e.flat ++ stop :: rest).length
   have hfb := fuelB_le e
   obtain ⟨s', hr, toks, hs', hd', hN⟩ := binary_expression_parses_grammar_tree
-    (iface ty (Op ty) FollowOp e.opFuel N operand_spec) (e.toBT s.idx) m (wf_toBT e m _ hwf) (nodes_toBT e _)
+    (iface env (Op env) FollowOp e.opFuel N operand_spec) (e.toBT s.idx) m (wf_toBT e m _ hwf) (nodes_toBT e _)
     k hk hkt s ⟨_, hs, hd, rfl⟩ F (by rw [btSize_toBT]; omega)
   have := denotes_tks_inv _ _ _ _ hd'
   subst this
@@ -963,9 +963,9 @@ theorem second_of_heads {l : List Tk} (h : HeadsOK l) : ∃ t1 r1, l = t1 :: r1 
   · exact .inl hl
 
 /-- the statement-expression test `({` of `_parse_assignment_expression` is false on an expression -/
-theorem stmtexpr_test_false (s : PState) (toks : List Tk) (hs : SeesT ty s toks)
+theorem stmtexpr_test_false (s : PState) (toks : List Tk) (hs : SeesT env s toks)
     (hhead : ∃ t1 r1, toks = t1 :: r1 ∧ (t1.1 ≠ "LPAREN" ∨ ∃ t2 r2, r1 = t2 :: r2 ∧ t2.1 ≠ "LBRACE")) :
-    ∃ sb, andM (peekIs "LPAREN") (peek2Is "LBRACE") s = .ok false sb ∧ SeesT ty sb toks ∧ sb.idx = s.idx := by
+    ∃ sb, andM (peekIs "LPAREN") (peek2Is "LBRACE") s = .ok false sb ∧ SeesT env sb toks ∧ sb.idx = s.idx := by
   obtain ⟨t1, r1, rfl, hsecond⟩ := hhead
   obtain ⟨sa, ha, hsa, hia, _⟩ := peekType_spec s _ hs
   by_cases hl : t1.1 = "LPAREN"
@@ -988,7 +988,7 @@ theorem stopX_colon : StopX "COLON" := ⟨⟨⟨⟨by decide, by decide⟩, by d
 theorem stopA_comma : StopA "COMMA" := ⟨⟨⟨by decide, by decide⟩, by decide⟩, by decide⟩
 
 /-- conditional level, for an expression that is not itself a `?:` -/
-theorem cok_of_bok (e : X) (hb : BOK ty e) (hw3 : WFX 2 e → WFX 3 e) : COK ty e := by
+theorem cok_of_bok (e : X) (hb : BOK env e) (hw3 : WFX 2 e → WFX 3 e) : COK env e := by
   intro hwf s stop rest hstop hs F hF
   obtain ⟨G, rfl⟩ : ∃ G, F = G + 1 := ⟨F - 1, by have := fuel_ge e; omega⟩
   obtain ⟨s1, h1, hs1, hi1⟩ := hb 0 (hw3 hwf) s stop rest hstop.1 hs G (by omega)
@@ -997,7 +997,7 @@ theorem cok_of_bok (e : X) (hb : BOK ty e) (hw3 : WFX 2 e → WFX 3 e) : COK ty 
   exact ⟨s2, h2, hs2, by omega⟩
 
 /-- assignment level, for an expression that is not itself an assignment -/
-theorem aok_of_cok (e : X) (hc : COK ty e) (hw2 : WFX 1 e → WFX 2 e) : AOK ty e := by
+theorem aok_of_cok (e : X) (hc : COK env e) (hw2 : WFX 1 e → WFX 2 e) : AOK env e := by
   intro hwf s stop rest hstop hs F hF
   obtain ⟨G, rfl⟩ : ∃ G, F = G + 1 := ⟨F - 1, by have := fuel_ge e; omega⟩
   refine assign_through G s _ (e.flat ++ stop :: rest) _ _ hs
@@ -1007,7 +1007,7 @@ theorem aok_of_cok (e : X) (hc : COK ty e) (hw2 : WFX 1 e → WFX 2 e) : AOK ty 
   exact ⟨s1, by rw [h1, hi0], hs1, by omega⟩
 
 /-- expression level, for an expression that is not itself a comma expression -/
-theorem xok_of_aok (e : X) (ha : AOK ty e) (hw1 : WFX 0 e → WFX 1 e) : XOK ty e := by
+theorem xok_of_aok (e : X) (ha : AOK env e) (hw1 : WFX 0 e → WFX 1 e) : XOK env e := by
   intro hwf s stop rest hstop hs F hF
   obtain ⟨G, rfl⟩ : ∃ G, F = G + 1 := ⟨F - 1, by have := fuel_ge e; omega⟩
   refine expr_through G s _ _ _ ?_ (by intro k w r h; simp only [List.cons.injEq] at h; have := hstop.2; rw [h.1] at this; exact this)
@@ -1016,13 +1016,13 @@ theorem xok_of_aok (e : X) (ha : AOK ty e) (hw1 : WFX 0 e → WFX 1 e) : XOK ty 
 
 
 /-- `c ? t : f` -/
-theorem cok_cond (c t f : X) (hc : BOK ty c) (ht : XOK ty t) (hf : COK ty f) : COK ty (.cond c t f) := by
+theorem cok_cond (c t f : X) (hc : BOK env c) (ht : XOK env t) (hf : COK env f) : COK env (.cond c t f) := by
   intro hwf s stop rest hstop hs F hF
   cases hwf with
   | cond _ _ _ _ _ hwc hwt hwf' =>
     obtain ⟨G, rfl⟩ : ∃ G, F = G + 1 := ⟨F - 1, by simp only [X.fuel] at hF; omega⟩
     simp only [X.fuel] at hF
-    have hs0 : SeesT ty s (c.flat ++ ("CONDOP", "?") :: (t.flat ++ ("COLON", ":") :: (f.flat ++ stop :: rest))) := by
+    have hs0 : SeesT env s (c.flat ++ ("CONDOP", "?") :: (t.flat ++ ("COLON", ":") :: (f.flat ++ stop :: rest))) := by
       simpa [X.flat, List.append_assoc] using hs
     obtain ⟨s1, h1, hs1, hi1⟩ := hc 0 hwc s ("CONDOP", "?") _ stopB_condop hs0 G (by omega)
     obtain ⟨s2, h2, hs2, hi2, _⟩ := accept_same s1 "CONDOP" "?" _ hs1
@@ -1038,14 +1038,14 @@ theorem cok_cond (c t f : X) (hc : BOK ty c) (ht : XOK ty t) (hf : COK ty f) : C
     simp only [pConditionalExpression, bnd, h1, h2, h3, h4, h5, hco, pur, X.val]
 
 /-- `l op= r` -/
-theorem aok_assign (k v : String) (l r : X) (hl : COK ty l) (hr : AOK ty r) : AOK ty (.assign k v l r) := by
+theorem aok_assign (k v : String) (l r : X) (hl : COK env l) (hr : AOK env r) : AOK env (.assign k v l r) := by
   intro hwf s stop rest hstop hs F hF
   cases hwf with
   | assign _ _ _ _ _ _ hk hwl hwr =>
     obtain ⟨G, rfl⟩ : ∃ G, F = G + 1 := ⟨F - 1, by simp only [X.fuel] at hF; omega⟩
     simp only [X.fuel] at hF
     obtain ⟨hstopk, hin⟩ := assignOp_stop k hk
-    have hs0 : SeesT ty s (l.flat ++ (k, v) :: (r.flat ++ stop :: rest)) := by
+    have hs0 : SeesT env s (l.flat ++ (k, v) :: (r.flat ++ stop :: rest)) := by
       simpa [X.flat, List.append_assoc] using hs
     obtain ⟨sb, hb, hsb, hib⟩ := stmtexpr_test_false s _ hs0 (second_of_heads ((flat_heads hwl).append _))
     obtain ⟨s1, h1, hs1, hi1⟩ := hl (hwl.weaken (by omega)) sb (k, v) _ hstopk hsb G (by omega)
@@ -1098,20 +1098,20 @@ theorem rest_head (e : X) (stop : Tk) (rest : List Tk) (hstop : StopX stop.1) :
   | _ => exact ⟨stop, rest, rfl, hstop.1⟩
 
 /-- the loop of `_parse_expression` after the first operand of `e` has been consumed -/
-def LoopOK (ty : String → Bool) (e : X) : Prop :=
+def LoopOK (env : Env) (e : X) : Prop :=
   ∀ (acc : List Val) (s : PState) (stop : Tk) (rest : List Tk) (n0 : Nat), WFX 0 e → StopX stop.1 →
-    SeesT ty s (e.restToks ++ stop :: rest) → s.idx = n0 + e.first.ntoks →
+    SeesT env s (e.restToks ++ stop :: rest) → s.idx = n0 + e.first.ntoks →
     ∀ F, e.fuel ≤ F + 1 → ∃ s', run F (.exprListLoop acc) s = .ok (acc ++ e.restItems n0) s' ∧
-      SeesT ty s' (stop :: rest) ∧ s'.idx = n0 + e.ntoks
+      SeesT env s' (stop :: rest) ∧ s'.idx = n0 + e.ntoks
 
 /-- the loop of `_parse_argument_expression_list` after the first argument has been consumed -/
-def ArgLoopOK (ty : String → Bool) (e : X) : Prop :=
+def ArgLoopOK (env : Env) (e : X) : Prop :=
   ∀ (acc : List Val) (s : PState) (stop : Tk) (rest : List Tk) (n0 : Nat), WFX 0 e → StopX stop.1 →
-    SeesT ty s (e.restToks ++ stop :: rest) → s.idx = n0 + e.first.ntoks →
+    SeesT env s (e.restToks ++ stop :: rest) → s.idx = n0 + e.first.ntoks →
     ∀ F, e.fuel ≤ F + 1 → ∃ s', run F (.argListLoop acc) s = .ok (acc ++ e.restItems n0) s' ∧
-      SeesT ty s' (stop :: rest) ∧ s'.idx = n0 + e.ntoks
+      SeesT env s' (stop :: rest) ∧ s'.idx = n0 + e.ntoks
 
-theorem loop_single (e : X) (hnc : e.restToks = []) (hri : ∀ n, e.restItems n = []) (hf : e.first = e) : LoopOK ty e := by
+theorem loop_single (e : X) (hnc : e.restToks = []) (hri : ∀ n, e.restItems n = []) (hf : e.first = e) : LoopOK env e := by
   intro acc s stop rest n0 _ hstop hs hi F hF
   obtain ⟨G, rfl⟩ : ∃ G, F = G + 1 := ⟨F - 1, by have := fuel_ge e; omega⟩
   rw [hnc] at hs
@@ -1121,7 +1121,7 @@ theorem loop_single (e : X) (hnc : e.restToks = []) (hri : ∀ n, e.restItems n 
   show pExprListLoop (run G) acc s = _
   simp [pExprListLoop, bnd, h1, pur, hri]
 
-theorem argloop_single (e : X) (hnc : e.restToks = []) (hri : ∀ n, e.restItems n = []) (hf : e.first = e) : ArgLoopOK ty e := by
+theorem argloop_single (e : X) (hnc : e.restToks = []) (hri : ∀ n, e.restItems n = []) (hf : e.first = e) : ArgLoopOK env e := by
   intro acc s stop rest n0 _ hstop hs hi F hF
   obtain ⟨G, rfl⟩ : ∃ G, F = G + 1 := ⟨F - 1, by have := fuel_ge e; omega⟩
   rw [hnc] at hs
@@ -1131,14 +1131,14 @@ theorem argloop_single (e : X) (hnc : e.restToks = []) (hri : ∀ n, e.restItems
   show pArgListLoop (run G) acc s = _
   simp [pArgListLoop, bnd, h1, pur, hri]
 
-theorem loop_comma (a b : X) (hfb : AOK ty b.first) (hlb : LoopOK ty b) : LoopOK ty (.comma a b) := by
+theorem loop_comma (a b : X) (hfb : AOK env b.first) (hlb : LoopOK env b) : LoopOK env (.comma a b) := by
   intro acc s stop rest n0 hwf hstop hs hi F hF
   cases hwf with
   | comma _ _ hwa hwb =>
     obtain ⟨G, rfl⟩ : ∃ G, F = G + 1 := ⟨F - 1, by simp only [X.fuel] at hF; have := fuel_ge b; omega⟩
     simp only [X.fuel] at hF
     have hff := fuel_first b
-    have hs0 : SeesT ty s (("COMMA", ",") :: (b.first.flat ++ (b.restToks ++ stop :: rest))) := by
+    have hs0 : SeesT env s (("COMMA", ",") :: (b.first.flat ++ (b.restToks ++ stop :: rest))) := by
       have := flat_first b
       simpa [X.restToks, this, List.append_assoc] using hs
     obtain ⟨s1, h1, hs1, hi1, _⟩ := accept_same s "COMMA" "," _ hs0
@@ -1159,14 +1159,14 @@ theorem loop_comma (a b : X) (hfb : AOK ty b.first) (hlb : LoopOK ty b) : LoopOK
     simp only [pExprListLoop, bnd, h1, h2, h3, pur, hitems]
     simp
 
-theorem argloop_comma (a b : X) (hfb : AOK ty b.first) (hlb : ArgLoopOK ty b) : ArgLoopOK ty (.comma a b) := by
+theorem argloop_comma (a b : X) (hfb : AOK env b.first) (hlb : ArgLoopOK env b) : ArgLoopOK env (.comma a b) := by
   intro acc s stop rest n0 hwf hstop hs hi F hF
   cases hwf with
   | comma _ _ hwa hwb =>
     obtain ⟨G, rfl⟩ : ∃ G, F = G + 1 := ⟨F - 1, by simp only [X.fuel] at hF; have := fuel_ge b; omega⟩
     simp only [X.fuel] at hF
     have hff := fuel_first b
-    have hs0 : SeesT ty s (("COMMA", ",") :: (b.first.flat ++ (b.restToks ++ stop :: rest))) := by
+    have hs0 : SeesT env s (("COMMA", ",") :: (b.first.flat ++ (b.restToks ++ stop :: rest))) := by
       have := flat_first b
       simpa [X.restToks, this, List.append_assoc] using hs
     obtain ⟨s1, h1, hs1, hi1, _⟩ := accept_same s "COMMA" "," _ hs0
@@ -1188,14 +1188,14 @@ theorem argloop_comma (a b : X) (hfb : AOK ty b.first) (hlb : ArgLoopOK ty b) : 
     simp
 
 /-- `a , b` -/
-theorem xok_comma (a b : X) (ha : AOK ty a) (hfb : AOK ty b.first) (hlb : LoopOK ty b) : XOK ty (.comma a b) := by
+theorem xok_comma (a b : X) (ha : AOK env a) (hfb : AOK env b.first) (hlb : LoopOK env b) : XOK env (.comma a b) := by
   intro hwf s stop rest hstop hs F hF
   cases hwf with
   | comma _ _ hwa hwb =>
     obtain ⟨G, rfl⟩ : ∃ G, F = G + 1 := ⟨F - 1, by simp only [X.fuel] at hF; have := fuel_ge b; omega⟩
     simp only [X.fuel] at hF
     have hff := fuel_first b
-    have hs0 : SeesT ty s (a.flat ++ ("COMMA", ",") :: (b.first.flat ++ (b.restToks ++ stop :: rest))) := by
+    have hs0 : SeesT env s (a.flat ++ ("COMMA", ",") :: (b.first.flat ++ (b.restToks ++ stop :: rest))) := by
       have := flat_first b
       simpa [X.flat, this, List.append_assoc] using hs
     obtain ⟨s1, h1, hs1, hi1⟩ := ha hwa s ("COMMA", ",") _ stopA_comma hs0 G (by omega)
@@ -1217,14 +1217,14 @@ theorem xok_comma (a b : X) (ha : AOK ty a) (hfb : AOK ty b.first) (hlb : LoopOK
     simp
 
 /-- `f ( arguments )` -/
-theorem cps_call (f a : X) (ih : PostCPS ty f) (hfa : AOK ty a.first) (hla : ArgLoopOK ty a) : PostCPS ty (.call f a) := by
+theorem cps_call (f a : X) (ih : PostCPS env f) (hfa : AOK env a.first) (hla : ArgLoopOK env a) : PostCPS env (.call f a) := by
   intro hwf s rest F hs hF
   cases hwf with
   | call _ _ _ _ hw hwa =>
     simp only [X.fuel] at hF
     have hsf := sfx_fuel f
     have hff := fuel_first a
-    have hs0 : SeesT ty s (f.flat ++ ("LPAREN", "(") :: (a.flat ++ ("RPAREN", ")") :: rest)) := by
+    have hs0 : SeesT env s (f.flat ++ ("LPAREN", "(") :: (a.flat ++ ("RPAREN", ")") :: rest)) := by
       simpa [X.flat] using hs
     obtain ⟨s1, G, hs1, hi1, hG, heq⟩ := ih hw s _ F hs0 (by omega)
     obtain ⟨G', rfl⟩ : ∃ G', G = G' + 1 := ⟨G - 1, by omega⟩
@@ -1235,7 +1235,7 @@ theorem cps_call (f a : X) (ih : PostCPS ty f) (hfa : AOK ty a.first) (hla : Arg
       (fun sa hsa hia => by
         have hia' : sa.idx = m := by omega
         obtain ⟨t, r, hhd, hst⟩ := rest_head a ("RPAREN", ")") rest stopX_rparen
-        have hsa' : SeesT ty sa (a.first.flat ++ t :: r) := by
+        have hsa' : SeesT env sa (a.first.flat ++ t :: r) := by
           rw [← hhd, ← List.append_assoc, ← flat_first]; exact hsa
         obtain ⟨sb, hb, hsb, hib⟩ := hfa (wf_first hwa) sa t r hst hsa' G' (by omega)
         rw [← hhd] at hsb
@@ -1334,27 +1334,27 @@ theorem not14_szof (e : X) : ¬ WFX 14 (.szof e) := by
   intro h; cases h with | szof _ _ hL => omega
 
 /-- everything the induction carries about one expression -/
-structure All (ty : String → Bool) (e : X) : Prop where
-  cps : PostCPS ty e
-  un : UnOK ty e
-  cast : CastOK ty e
-  b : BOK ty e
-  c : COK ty e
-  a : AOK ty e
-  x : XOK ty e
-  leaf : LeafOK ty e
-  afirst : AOK ty e.first
-  loop : LoopOK ty e
-  argloop : ArgLoopOK ty e
+structure All (env : Env) (e : X) : Prop where
+  cps : PostCPS env e
+  un : UnOK env e
+  cast : CastOK env e
+  b : BOK env e
+  c : COK env e
+  a : AOK env e
+  x : XOK env e
+  leaf : LeafOK env e
+  afirst : AOK env e.first
+  loop : LoopOK env e
+  argloop : ArgLoopOK env e
 
 theorem first_eq {e : X} (hn : ∀ a b, e ≠ .comma a b) : e.first = e ∧ e.restToks = [] ∧ ∀ n, e.restItems n = [] := by
   cases e <;> first | exact ⟨rfl, rfl, fun _ => rfl⟩ | exact absurd rfl (hn _ _)
 
 /-- the upper layers for an expression of the unary level or below -/
 theorem all_of_unary (e : X) (hb : e.isBin = false) (hnc : ∀ c t f, e ≠ .cond c t f)
-    (hna : ∀ k v l r, e ≠ .assign k v l r) (hnm : ∀ a b, e ≠ .comma a b) (cps : PostCPS ty e) (un : UnOK ty e) : All ty e := by
+    (hna : ∀ k v l r, e ≠ .assign k v l r) (hnm : ∀ a b, e ≠ .comma a b) (cps : PostCPS env e) (un : UnOK env e) : All env e := by
   have cast := cast_of_un e un
-  have leaf : LeafOK ty e := by rw [leafOK_leaf e hb]; exact cast
+  have leaf : LeafOK env e := by rw [leafOK_leaf e hb]; exact cast
   have b := bok_of_leaves e leaf
   have c := cok_of_bok _ b (lift23 hnc)
   have a := aok_of_cok _ c (lift12 hna)
@@ -1364,12 +1364,12 @@ theorem all_of_unary (e : X) (hb : e.isBin = false) (hnc : ∀ c t f, e ≠ .con
 
 theorem all_of_postfix (e : X) (hb : e.isBin = false) (hnc : ∀ c t f, e ≠ .cond c t f)
     (hna : ∀ k v l r, e ≠ .assign k v l r) (hnm : ∀ a b, e ≠ .comma a b)
-    (hp : ∀ k v e', e ≠ .pre k v e') (hz : ∀ e', e ≠ .szof e') (cps : PostCPS ty e) : All ty e :=
+    (hp : ∀ k v e', e ≠ .pre k v e') (hz : ∀ e', e ≠ .szof e') (cps : PostCPS env e) : All env e :=
   all_of_unary e hb hnc hna hnm cps (fun hw => un_of_cps e (lift1314 hp hz hw) cps)
 
-theorem bok_vacuous (e : X) (h : ∀ m, ¬ WFX (3 + m) e) : BOK ty e := fun m hw => absurd hw (h m)
+theorem bok_vacuous (e : X) (h : ∀ m, ¬ WFX (3 + m) e) : BOK env e := fun m hw => absurd hw (h m)
 
-theorem all_ok : ∀ e : X, All ty e
+theorem all_ok : ∀ e : X, All env e
   | .id x => all_of_postfix _ rfl (by intro _ _ _ h; cases h) (by intro _ _ _ _ h; cases h) (by intro _ _ h; cases h)
       (by intro _ _ _ h; cases h) (by intro _ h; cases h) (cps_id x)
   | .const k v t => all_of_postfix _ rfl (by intro _ _ _ h; cases h) (by intro _ _ _ _ h; cases h) (by intro _ _ h; cases h)
@@ -1405,7 +1405,7 @@ theorem all_ok : ∀ e : X, All ty e
     have iht := all_ok t
     have ihf := all_ok f
     have n13 := not13_cond c t f
-    have b : BOK ty (.cond c t f) := bok_vacuous _ (by
+    have b : BOK env (.cond c t f) := bok_vacuous _ (by
       intro m h; generalize hL : 3 + m = L at h; cases h with | cond _ _ _ _ hL' => omega)
     have cc := cok_cond c t f ihc.b iht.x ihf.c
     have a := aok_of_cok _ cc (lift12 (by intro _ _ _ _ h; cases h))
@@ -1416,9 +1416,9 @@ theorem all_ok : ∀ e : X, All ty e
     have ihl := all_ok l
     have ihr := all_ok r
     have n13 := not13_assign k v l r
-    have b : BOK ty (.assign k v l r) := bok_vacuous _ (by
+    have b : BOK env (.assign k v l r) := bok_vacuous _ (by
       intro m h; generalize hL : 3 + m = L at h; cases h with | assign _ _ _ _ _ hL' => omega)
-    have cc : COK ty (.assign k v l r) := by intro h; cases h with | assign _ _ _ _ _ hL' => omega
+    have cc : COK env (.assign k v l r) := by intro h; cases h with | assign _ _ _ _ _ hL' => omega
     have a := aok_assign k v l r ihl.c ihr.a
     exact ⟨fun hw => absurd (hw.weaken (by omega)) n13, fun hw => absurd hw n13, fun hw => absurd hw n13,
       b, cc, a, xok_of_aok _ a (lift01 (by intro _ _ h; cases h)), fun hw => absurd hw n13, a,
@@ -1427,10 +1427,10 @@ theorem all_ok : ∀ e : X, All ty e
     have iha := all_ok a
     have ihb := all_ok b
     have n13 := not13_comma a b
-    have bb : BOK ty (.comma a b) := bok_vacuous _ (by
+    have bb : BOK env (.comma a b) := bok_vacuous _ (by
       intro m h; generalize hL : 3 + m = L at h; cases h with | comma => omega)
-    have cc : COK ty (.comma a b) := by intro h; cases h
-    have aa : AOK ty (.comma a b) := by intro h; cases h
+    have cc : COK env (.comma a b) := by intro h; cases h
+    have aa : AOK env (.comma a b) := by intro h; cases h
     exact ⟨fun hw => absurd (hw.weaken (by omega)) n13, fun hw => absurd hw n13, fun hw => absurd hw n13,
       bb, cc, aa, xok_comma a b iha.a ihb.afirst ihb.loop, fun hw => absurd hw n13, iha.a,
       loop_comma a b ihb.afirst ihb.loop, argloop_comma a b ihb.afirst ihb.argloop⟩
@@ -1442,8 +1442,8 @@ the assignment operators, comma; any size and nesting) that is well-formed at th
 every state that sees its tokens followed by a token that cannot continue an expression,
 `_parse_expression` returns `e.val` and consumes exactly the tokens of `e`. -/
 theorem parse_full (e : X) (hwf : WFX 0 e) (s : PState) (stop : Tk) (rest : List Tk) (hstop : StopX stop.1)
-    (hs : SeesT ty s (e.flat ++ stop :: rest)) (F : Nat) (hF : e.fuel ≤ F) :
-    ∃ s', run F .expression s = .ok (e.val s.idx) s' ∧ SeesT ty s' (stop :: rest) ∧ s'.idx = s.idx + e.ntoks :=
+    (hs : SeesT env s (e.flat ++ stop :: rest)) (F : Nat) (hF : e.fuel ≤ F) :
+    ∃ s', run F .expression s = .ok (e.val s.idx) s' ∧ SeesT env s' (stop :: rest) ∧ s'.idx = s.idx + e.ntoks :=
   (all_ok e).x hwf s stop rest hstop hs F hF
 
 theorem fuel_linear (e : X) : e.fuel ≤ 13 * e.ntoks := by
@@ -1465,7 +1465,7 @@ example : ∃ s',
                 mk .UnaryOp (tc 9) [.str "sizeof",
                   mk .FuncCall (tc 10) [mk .StructRef (tc 10) [idNode 10 "c", .str ".", idNode 12 "f"],
                     mk .ExprList (tc 14) [.list [idNode 14 "x", mk .Constant (tc 16) [.str "int", .str "1"]]]]]]]) s' ∧
-      SeesT (fun _ => false) s' [("SEMI", ";")] := by
+      (∃ env, SeesT env s' [("SEMI", ";")]) := by
   let e : X := .assign "EQUALS" "=" (.id "a")
     (.bin "TIMES" "*" (.pre "MINUS" "-" (.post "PLUSPLUS" "++" (.index (.id "b") (.id "i"))))
       (.szof (.call (.member "PERIOD" "." (.id "c") "f") (.comma (.id "x") (.const "INT_CONST_DEC" "1" "int")))))
@@ -1480,6 +1480,6 @@ example : ∃ s',
     ("RPAREN", ")"), ("SEMI", ";")]
   have hstop : StopX ("SEMI", ";").1 := ⟨⟨⟨⟨by decide, by decide⟩, by decide⟩, by decide⟩, by decide⟩
   obtain ⟨s', hr, hs', _⟩ := parse_full e hwf _ ("SEMI", ";") [] hstop hs 400 (by decide)
-  exact ⟨s', hr, hs'⟩
+  exact ⟨s', hr, _, hs'⟩
 
 end PycModel.FullExpr
